@@ -105,6 +105,9 @@ class RtlCase(Case):
   xcheck = False
 
   def body(self, cfg, c):
+    return [('bounded:' + n, b) for n, b in self._body(cfg, c)]
+
+  def _body(self, cfg, c):
     rl = load.mod('rtl_layer')
     n_inc, n_unc = sum(cfg.get('inc') or []), sum(cfg.get('unc') or [])
     n = n_inc + n_unc
@@ -142,6 +145,553 @@ class RtlCase(Case):
     return cl
 
 
+
+# ----------------------------------------------------------------- RTL: deductive, for every seed
+#
+# `_get_rtl_structure` is cut MECHANICALLY (from the AST of the working tree, on every run) at its single
+# top-level `while` statement into a prefix, the innermost loop body of the swap loop and a suffix; nothing is
+# rewritten except `continue` -> `return locals()` inside the extracted body and an added `return locals()`.
+#   prefix  - run on the real input description with `np.random.RandomState(...).shuffle` under its CONTRACT
+#             ("the list is rearranged by an unknown permutation"): the shuffled list is refilled with fresh
+#             opaque tokens, so whatever the code does afterwards it does for every permutation (= every seed).
+#   body    - loop invariant of the swap loop (every lattice keeps its length, the slots are only exchanged),
+#             proved on tokens whose group / monotonicity / index are symbolic; `==`, `in` on them fork the path.
+#   suffix  - sort + grouping, on tokens with every monotonicity pattern and opaque input indices.
+# The clauses of the property follow from prefix-post /\ invariant /\ suffix-post (composition argument in
+# DESIGN.md section C17).
+
+import ast as _ast
+import collections as _collections
+
+
+class _Sym(object):
+  """Integer attribute of an input slot that the code may only compare."""
+  __slots__ = ('p', 'name')
+
+  def __init__(self, name):
+    self.name = name
+    self.p = P.var(E.fresh_name(name))
+
+  def _other(self, o):
+    return o.p if isinstance(o, _Sym) else P.lift(o)
+
+  def __eq__(self, o):
+    if o is self:
+      return True
+    return C.decide(B.cmp('eq', self.p - self._other(o)), '%s == %r' % (self.name, getattr(o, 'name', o)))
+
+  def __ne__(self, o):
+    return not self.__eq__(o)
+
+  def __lt__(self, o):
+    return C.decide(self.p < self._other(o), '%s < %r' % (self.name, getattr(o, 'name', o)))
+
+  def __gt__(self, o):
+    return C.decide(self._other(o) < self.p, '%s > %r' % (self.name, getattr(o, 'name', o)))
+
+  def __le__(self, o):
+    return not self.__gt__(o)
+
+  def __ge__(self, o):
+    return not self.__lt__(o)
+
+  def __hash__(self):
+    raise tfc.NoContract('hash of a symbolic slot attribute (%s): set / dict use is outside the encoding' % self.name)
+
+  def __repr__(self):
+    return '<%s>' % self.name
+
+
+class _Opaque(object):
+  """A value the code may only move around."""
+  __slots__ = ('name',)
+
+  def __init__(self, name):
+    self.name = name
+
+  def __repr__(self):
+    return '<%s>' % self.name
+
+
+class _ExtractionError(Exception):
+  pass
+
+
+class _Unbound(object):
+  """Placeholder for a name the extracted segment assigns before it reads it (loop targets, temporaries); any use
+  of it is an extraction error (the segment depends on state the harness does not provide)."""
+
+  def __getattr__(self, name):
+    raise _ExtractionError('the extracted segment reads a variable the harness does not provide')
+
+  def __iter__(self):
+    raise _ExtractionError('the extracted segment reads a variable the harness does not provide')
+
+  __len__ = __getitem__ = __call__ = __iter__
+
+
+_UNBOUND = _Unbound()
+
+
+def _names(nodes, ctx):
+  out = set()
+  for n in nodes:
+    for x in _ast.walk(n):
+      if isinstance(x, _ast.Name) and isinstance(x.ctx, ctx):
+        out.add(x.id)
+      if ctx is _ast.Store and isinstance(x, _ast.arg):
+        out.add(x.arg)
+  return out
+
+
+class _ContinueToReturn(_ast.NodeTransformer):
+
+  def visit_Continue(self, node):
+    return _ast.copy_location(_ast.Return(value=_ast.Call(func=_ast.Name(id='locals', ctx=_ast.Load()), args=[],
+                                                          keywords=[])), node)
+
+  def visit_Break(self, node):
+    raise _ExtractionError('break inside the innermost swap-loop body')
+
+  def visit_For(self, node):
+    raise _ExtractionError('loop inside the innermost swap-loop body')
+
+  visit_While = visit_For
+
+
+def _make_fn(name, params, stmts, glob):
+  fn = _ast.FunctionDef(name=name, args=_ast.arguments(posonlyargs=[], args=[_ast.arg(arg=p) for p in params],
+                                                        kwonlyargs=[], kw_defaults=[], defaults=[]),
+                        body=list(stmts) + [_ast.Return(value=_ast.Call(func=_ast.Name(id='locals', ctx=_ast.Load()),
+                                                                       args=[], keywords=[]))],
+                        decorator_list=[])
+  m = _ast.Module(body=[fn], type_ignores=[])
+  _ast.fix_missing_locations(m)
+  ns = {}
+  exec(compile(m, '<extracted from rtl_layer.RTL._get_rtl_structure: %s>' % name, 'exec'), glob, ns)  # pylint: disable=exec-used
+  return ns[name]
+
+
+_SEG_CACHE = {}
+
+
+def _rtl_segments():
+  """Cuts the working tree's RTL._get_rtl_structure; returns a dict of callables and AST facts."""
+  if 'seg' in _SEG_CACHE:
+    return _SEG_CACHE['seg']
+  import copy, os
+  rl = load.mod('rtl_layer')
+  with open(os.path.join(load.PYDIR, 'rtl_layer.py')) as f:
+    tree = _ast.parse(f.read())
+  fn = None
+  for cls in tree.body:
+    if isinstance(cls, _ast.ClassDef) and cls.name == 'RTL':
+      for x in cls.body:
+        if isinstance(x, _ast.FunctionDef) and x.name == '_get_rtl_structure':
+          fn = x
+  if fn is None:
+    raise _ExtractionError('RTL._get_rtl_structure not found')
+  body = fn.body
+  whiles = [i for i, st in enumerate(body) if isinstance(st, _ast.While)]
+  if len(whiles) != 1:
+    raise _ExtractionError('expected exactly one top-level while statement, found %d' % len(whiles))
+  iw = whiles[0]
+  prefix, loop, suffix = body[:iw], body[iw], body[iw + 1:]
+  # the for-nest of the swap loop: a chain of for statements down to a loop-free innermost body
+  fors = [st for st in loop.body if isinstance(st, _ast.For)]
+  if len(fors) != 1 or loop.orelse:
+    raise _ExtractionError('the while body must contain exactly one for statement')
+  chain = [fors[0]]
+  while True:
+    inner = [st for st in chain[-1].body if isinstance(st, (_ast.For, _ast.While))]
+    if not inner:
+      break
+    if len(inner) != 1 or len(chain[-1].body) != 1 or not isinstance(inner[0], _ast.For) or chain[-1].orelse:
+      raise _ExtractionError('statements between the for headers of the swap loop')
+    chain.append(inner[0])
+  innermost = chain[-1]
+  # state variable: the list of lattices - the name the outermost for iterates over
+  outer_iter_names = _names([chain[0].iter], _ast.Load)
+  params_all = {a.arg for a in fn.args.args}
+  stored_prefix = _names(prefix, _ast.Store) | params_all
+  state = sorted(n for n in outer_iter_names if n in stored_prefix and n in _names(suffix, _ast.Load))
+  if len(state) != 1:
+    raise _ExtractionError('cannot identify the list of lattices (candidates %s)' % state)
+  state = state[0]
+  targets = set()
+  for f_ in chain:
+    targets |= _names([f_.target], _ast.Store)
+  # frame of the loop skeleton: outside the innermost body nothing writes to the state or to the loop targets' lists
+  skeleton = []
+  for x in _ast.walk(loop):
+    skeleton.append(x)
+  inner_nodes = set()
+  for st in innermost.body:
+    for x in _ast.walk(st):
+      inner_nodes.add(id(x))
+  frame_problems = []
+  guarded = {state} | targets
+  for x in skeleton:
+    if id(x) in inner_nodes:
+      continue
+    if isinstance(x, _ast.Name) and isinstance(x.ctx, (_ast.Store, _ast.Del)) and x.id == state:
+      frame_problems.append('rebinds %s at line %d' % (state, x.lineno))
+    if isinstance(x, (_ast.Subscript, _ast.Attribute)) and isinstance(x.ctx, (_ast.Store, _ast.Del)):
+      base = x.value
+      while isinstance(base, (_ast.Subscript, _ast.Attribute)):
+        base = base.value
+      if isinstance(base, _ast.Name) and base.id in guarded:
+        frame_problems.append('writes into %s at line %d' % (base.id, x.lineno))
+    if isinstance(x, _ast.Call) and isinstance(x.func, _ast.Attribute) and isinstance(x.func.value, _ast.Name) \
+        and x.func.value.id in guarded:
+      frame_problems.append('calls %s.%s at line %d' % (x.func.value.id, x.func.attr, x.lineno))
+  glob = rl.__dict__
+  prefix_fn = _make_fn('prefix', [a.arg for a in fn.args.args], prefix, glob)
+  body_stmts = [_ContinueToReturn().visit(copy.deepcopy(st)) for st in innermost.body]
+  stored_fn = _names(body, _ast.Store) | params_all
+  body_params = sorted((_names(innermost.body, _ast.Load) & stored_fn) | _names([innermost.target], _ast.Store))
+  body_fn = _make_fn('swap_body', body_params, body_stmts, glob)
+  header_fns = []
+  for f_ in chain:
+    e = _ast.Expression(body=copy.deepcopy(f_.iter))
+    _ast.fix_missing_locations(e)
+    header_fns.append((compile(e, '<for header>', 'eval'), f_.target))
+  suffix_params = sorted(_names(suffix, _ast.Load) & stored_fn)
+  suffix_stmts = copy.deepcopy(suffix)
+  if not suffix_stmts or not isinstance(suffix_stmts[-1], _ast.Return):
+    raise _ExtractionError('the function does not end with a return statement')
+  suffix_stmts[-1] = _ast.Assign(targets=[_ast.Name(id='__vt_result', ctx=_ast.Store())], value=suffix_stmts[-1].value)
+  for st in suffix_stmts[:-1]:
+    for x in _ast.walk(st):
+      if isinstance(x, _ast.Return):
+        raise _ExtractionError('early return in the suffix')
+  suffix_fn = _make_fn('suffix', suffix_params, suffix_stmts, glob)
+  # random sources named in the whole function (determinism in the seed)
+  rnd = []
+  for x in _ast.walk(fn):
+    if isinstance(x, _ast.Attribute) and isinstance(x.value, _ast.Attribute) and x.value.attr == 'random':
+      rnd.append(x.attr)
+    if isinstance(x, _ast.Name) and x.id == 'random':
+      rnd.append('random-module')
+  seg = dict(prefix=prefix_fn, body=body_fn, body_params=body_params, headers=header_fns, suffix=suffix_fn,
+             suffix_params=suffix_params, state=state, frame_problems=frame_problems, random_names=sorted(set(rnd)),
+             glob=glob, stmts=(len(prefix), len(innermost.body), len(suffix)))
+  _SEG_CACHE['seg'] = seg
+  return seg
+
+
+class _ShuffleContract(object):
+  """np.random under contract: RandomState(seed).shuffle(list) rearranges the list by an UNKNOWN permutation.
+  The list is refilled with fresh opaque tokens (one per position); ghost state keeps the old contents."""
+
+  def __init__(self):
+    self.generations = []     # (old contents, new tokens)
+    self.seeds = []
+    self.other_calls = []
+
+  def RandomState(self, seed=None):  # pylint: disable=invalid-name
+    self.seeds.append(seed)
+    return self
+
+  def shuffle(self, lst):
+    if not isinstance(lst, list):
+      raise tfc.NoContract('shuffle of a %s' % type(lst).__name__)
+    old = list(lst)
+    g = len(self.generations)
+    new = [_Opaque('slot%d.%d' % (g, i)) for i in range(len(old))]
+    self.generations.append((old, new))
+    lst[:] = new
+
+  def __getattr__(self, name):
+    def _other(*a, **k):
+      self.other_calls.append(name)
+      raise tfc.NoContract('np.random.%s has no contract here' % name)
+    return _other
+
+
+def _usage_profile(tokens, generations):
+  """Usage count of every ORIGINAL element behind `tokens` (a list of shuffle tokens), valid for every
+  permutation the shuffles may have applied; None when the counts depend on the permutation.
+
+  Meta-argument (stated as an assumption of the evidence): a shuffle token stands for `old[sigma(p)]` with sigma an
+  unknown bijection of positions.  (1) If the shuffled list held pairwise different original elements, the tokens
+  are a bijective relabelling of them, so the multiset of usage counts of the originals is the multiset of usage
+  counts of the tokens.  (2) If every token of a later shuffle is used equally often (k times), the originals
+  behind them are used as often as in k copies of the shuffled list, whatever sigma is."""
+  all_tokens = {id(t) for _, new in generations for t in new}
+  cur = list(tokens)
+  for old, new in reversed(generations):
+    newset = {id(t) for t in new}
+    if not any(id(t) in newset for t in cur):
+      continue                                   # a shuffle of some other list
+    if not all(id(t) in newset for t in cur):
+      return None
+    cnt = _collections.Counter(id(t) for t in cur)
+    if not any(id(o) in all_tokens for o in old):
+      if len({id(o) for o in old}) != len(old):
+        return None
+      return sorted(cnt.get(id(t), 0) for t in new)
+    mult = {cnt.get(id(t), 0) for t in new}
+    if len(mult) != 1:
+      return None
+    k = mult.pop()
+    cur = [o for o in old for _ in range(k)]
+  return None
+
+
+_RTL_SEARCH = """
+spec = args[0]
+rl = mod('rtl_layer')
+found = []
+for cfg in spec['configs']:
+  n_inc, n_unc = sum(cfg.get('inc') or []), sum(cfg.get('unc') or [])
+  n = n_inc + n_unc
+  shapes = {}
+  if cfg.get('inc'):
+    shapes['increasing'] = [(None, k) for k in cfg['inc']] if cfg.get('grouped') else (None, n_inc)
+  if cfg.get('unc'):
+    shapes['unconstrained'] = [(None, k) for k in cfg['unc']] if cfg.get('grouped') else (None, n_unc)
+  for seed in range(spec['seeds']):
+    def build():
+      return rl.RTL(num_lattices=cfg['num_lattices'], lattice_rank=cfg['rank'], random_seed=seed,
+                    avoid_intragroup_interaction=cfg.get('avoid', True))._get_rtl_structure(shapes)
+    try:
+      st = build()
+      again = build()
+    except Exception as e:
+      found.append({'cfg': cfg, 'seed': seed, 'why': 'raised %s: %s' % (type(e).__name__, str(e)[:100])})
+      break
+    counts = [0] * n
+    why = []
+    nl = 0
+    for monos, lats in st:
+      for lat in lats:
+        nl += 1
+        if len(lat) != cfg['rank'] or len(monos) != cfg['rank']:
+          why.append('a lattice with %d inputs' % len(lat))
+        for k, idx in enumerate(lat):
+          if not 0 <= idx < n:
+            why.append('index out of range')
+            continue
+          counts[idx] += 1
+          if k < len(monos) and monos[k] != (1 if idx < n_inc else 0):
+            why.append('input %d on a slot with monotonicity %d' % (idx, monos[k]))
+    if nl != cfg['num_lattices']:
+      why.append('%d lattices' % nl)
+    if counts and min(counts) < 1:
+      why.append('unused input')
+    if counts and max(counts) - min(counts) > 1:
+      why.append('usage counts %s' % counts)
+    if st != again:
+      why.append('two builds with the same seed differ')
+    if why:
+      found.append({'cfg': cfg, 'seed': seed, 'why': sorted(set(why))[:4], 'structure': [[list(m), [list(x) for x in l]] for m, l in st]})
+      break
+  if len(found) >= 3:
+    break
+result = found
+"""
+
+_RTL_SEARCH_CONFIGS = [dict(inc=[2], unc=[3], num_lattices=3, rank=2, grouped=False), dict(inc=[2, 1], unc=[1, 2], num_lattices=4, rank=3, grouped=True),
+                       dict(inc=[1], unc=[2], num_lattices=2, rank=2, grouped=False), dict(inc=[3], unc=[2], num_lattices=4, rank=2, grouped=True)]
+
+
+class _RtlSearchReplay(object):
+  """Replay of a failed deductive RTL obligation: bounded native search over real seeds for a structure that
+  violates the property (the failed obligation itself is about every permutation and carries no input)."""
+
+  def _search_cfgs(self, cfg):
+    return _RTL_SEARCH_CONFIGS
+
+  def replay_desc(self, cfg, model, g):
+    return {'kind': 'script', 'code': _RTL_SEARCH, 'args': [{'configs': self._search_cfgs(cfg), 'seeds': 300}], 'kwargs': {}}
+
+  def replay_eval(self, cfg, model, g, desc, nat):
+    if 'error' in nat:
+      failing = ['native search raised ' + nat['error'][:200]]
+    else:
+      failing = ['seed %s of %s: %s' % (f['seed'], json.dumps(f['cfg'], sort_keys=True), f['why']) for f in nat.get('ok') or []]
+    return {'desc': {'kind': 'bounded native search over seeds 0..299 of the real _get_rtl_structure',
+                     'configs': desc['args'][0]['configs']},
+            'native': {k: v for k, v in nat.items() if k != 'trace'}, 'failing': failing}
+
+
+class RtlPrefixCase(_RtlSearchReplay, Case):
+  """Every seed at once: the real prefix of _get_rtl_structure under the shuffle contract."""
+  contract_key = None
+  xcheck = False
+
+  def _search_cfgs(self, cfg):
+    return [{k: v for k, v in cfg.items()}] + _RTL_SEARCH_CONFIGS[:1]
+
+  def body(self, cfg, c):
+    seg = _rtl_segments()
+    rl = load.mod('rtl_layer')
+    n_inc, n_unc = sum(cfg.get('inc') or []), sum(cfg.get('unc') or [])
+    n = n_inc + n_unc
+    L, R = cfg['num_lattices'], cfg['rank']
+    seed = _Opaque('random_seed')
+    layer = rl.RTL(num_lattices=L, lattice_rank=R, random_seed=0, avoid_intragroup_interaction=cfg.get('avoid', True))
+    layer.random_seed = seed
+    sc = _ShuffleContract()
+    saved = rl.np
+    rl.np = _NpProxy(sc)
+    try:
+      env = seg['prefix'](layer, _rtl_shapes(cfg))
+    finally:
+      rl.np = saved
+    cl = [('swap-loop-skeleton-leaves-the-lattices-alone', B.const(not seg['frame_problems'])),
+          ('only-the-seeded-generator-is-used', B.const(seg['random_names'] == ['RandomState'] and not sc.other_calls)),
+          ('generator-seeded-with-random_seed', B.const(len(sc.seeds) == 1 and sc.seeds[0] is seed))]
+    lattices = env.get(seg['state'])
+    ok = isinstance(lattices, list) and len(lattices) == L and all(isinstance(l, list) for l in lattices)
+    cl.append(('number-of-lattices', B.const(ok)))
+    if not ok or not sc.generations:
+      cl.append(('slots-come-from-the-shuffled-inputs', E.FALSE))
+      return cl
+    cl.append(('lattices-are-separate-lists', B.const(len({id(l) for l in lattices}) == L)))
+    for k, l in enumerate(lattices):
+      cl.append(('lattice-has-exactly-rank-inputs[%d]' % k, B.const(len(l) == R)))
+    first_old = sc.generations[0][0]
+    # the flattened inputs: one per input column, in the order of RTL.call (sorted keys: increasing first)
+    good = len(first_old) == n and all(isinstance(t, rl._RTLInput) for t in first_old)
+    if good:
+      want_groups = []
+      gi = 0
+      for key, sizes in (('increasing', cfg.get('inc') or []), ('unconstrained', cfg.get('unc') or [])):
+        if not sizes:
+          continue
+        if cfg.get('grouped'):
+          for k_ in sizes:
+            want_groups += [gi] * k_
+            gi += 1
+        else:
+          for _ in range(sum(sizes)):
+            want_groups.append(gi)
+            gi += 1
+      for i, t in enumerate(first_old):
+        cl.append(('flattened-input[%d]-index' % i, B.const(t.input_index == i)))
+        cl.append(('flattened-input[%d]-monotonicity' % i, B.const(t.monotonicity == (1 if i < n_inc else 0))))
+        cl.append(('flattened-input[%d]-group' % i, B.const(t.group == want_groups[i])))
+    else:
+      cl.append(('flattened-inputs-are-one-per-column', E.FALSE))
+    slots = [t for l in lattices for t in l]
+    prof = _usage_profile(slots, sc.generations)
+    if prof is None:
+      # the arrangement depends on which permutation a shuffle applied (e.g. truncation after the last shuffle):
+      # outside this encoding; the seeded / enumerated cases of 'rtl' remain
+      cl.append(('undecided:usage-counts-depend-on-the-permutation', E.FALSE))
+    else:
+      cl.append(('every-feature-used', B.const(len(prof) == n and min(prof) >= 1)))
+      cl.append(('usage-counts-differ-by-at-most-one', B.const(max(prof) - min(prof) <= 1)))
+      cl.append(('all-slots-filled', B.const(sum(prof) == L * R)))
+    return cl
+
+
+def _bind(target, value, env):
+  if isinstance(target, _ast.Name):
+    env[target.id] = value
+  elif isinstance(target, (_ast.Tuple, _ast.List)):
+    vals = list(value)
+    if len(vals) != len(target.elts):
+      raise _ExtractionError('cannot unpack loop target')
+    for t, v in zip(target.elts, vals):
+      _bind(t, v, env)
+  else:
+    raise _ExtractionError('unsupported loop target')
+
+
+class RtlSwapBodyCase(_RtlSearchReplay, Case):
+  """Loop invariant of the swap loop: one execution of the innermost body, from ANY state, exchanges slots
+  between lattices at most - lengths and the multiset of slots are preserved, other lattices untouched."""
+  contract_key = None
+  xcheck = False
+
+  def body(self, cfg, c):
+    seg = _rtl_segments()
+    rl = load.mod('rtl_layer')
+    R, L = cfg['rank'], cfg['lists']
+    which = cfg['iteration']       # index of the (outer..inner) loop binding this case looks at
+    lattices = [[rl._RTLInput(monotonicity=_Sym('mono%d_%d' % (a, k)), group=_Sym('group%d_%d' % (a, k)),
+                              input_index=_Sym('index%d_%d' % (a, k))) for k in range(R)] for a in range(L)]
+    before = [list(l) for l in lattices]
+    ids = [id(l) for l in lattices]
+    layer = rl.RTL(num_lattices=L, lattice_rank=R, avoid_intragroup_interaction=True)
+    env0 = {seg['state']: lattices, 'self': layer, 'changed': False, 'iteration': 0}
+    # enumerate the loop bindings with the real for headers (they depend on lengths only)
+    bindings = []
+
+    def rec(level, env):
+      if level == len(seg['headers']):
+        bindings.append(dict(env))
+        return
+      code, target = seg['headers'][level]
+      for v in eval(code, seg['glob'], dict(env)):  # pylint: disable=eval-used
+        e2 = dict(env)
+        _bind(target, v, e2)
+        rec(level + 1, e2)
+    rec(0, env0)
+    if which >= len(bindings):
+      return [('loop-binding-exists', E.TRUE)]
+    env = bindings[which]
+    seg['body'](*[env.get(p, _UNBOUND) for p in seg['body_params']])
+    now = env0[seg['state']]
+    cl = [('the-list-of-lattices-is-kept', B.const(now is lattices and len(lattices) == L and
+                                                   [id(l) for l in lattices] == ids))]
+    for a, l in enumerate(lattices):
+      cl.append(('lattice-keeps-its-length[%d]' % a, B.const(len(l) == R)))
+    b_ids = sorted(id(t) for l in before for t in l)
+    a_ids = sorted(id(t) for l in lattices for t in l)
+    cl.append(('slots-are-only-exchanged', B.const(a_ids == b_ids)))
+    touched = [a for a in range(L) if [id(t) for t in lattices[a]] != [id(t) for t in before[a]]]
+    cl.append(('at-most-two-lattices-touched', B.const(len(touched) in (0, 2))))
+    return cl
+
+
+class RtlSuffixCase(_RtlSearchReplay, Case):
+  """Sorting by monotonicity and grouping: slots stay in their lattice, every slot is reported once and its
+  monotonicity label is the one of the input wired to it."""
+  contract_key = None
+  xcheck = False
+
+  def body(self, cfg, c):
+    seg = _rtl_segments()
+    rl = load.mod('rtl_layer')
+    R = cfg['rank']
+    pats = cfg['patterns']
+    L = len(pats)
+    lattices = [[rl._RTLInput(monotonicity=pats[a][k], group=_Opaque('group'), input_index=_Opaque('index%d_%d' % (a, k)))
+                 for k in range(R)] for a in range(L)]
+    owner = {id(t.input_index): (a, t.monotonicity) for a, l in enumerate(lattices) for t in l}
+    layer = rl.RTL(num_lattices=L, lattice_rank=R)
+    env = {seg['state']: lattices, 'self': layer}
+    res = seg['suffix'](*[env.get(p, _UNBOUND) for p in seg['suffix_params']])['__vt_result']
+    cl = []
+    seen = []
+    keys = []
+    for monos, lats in res:
+      keys.append(tuple(monos))
+      for lat in lats:
+        cl.append(('lattice-has-exactly-rank-inputs', B.const(len(lat) == R and len(monos) == R)))
+        owners = set()
+        for k, idx in enumerate(lat):
+          o = owner.get(id(idx))
+          cl.append(('reported-index-is-a-slot', B.const(o is not None)))
+          if o is None or k >= len(monos):
+            continue
+          seen.append(id(idx))
+          owners.add(o[0])
+          cl.append(('increasing-input-on-monotone-slot-only', B.const(monos[k] == o[1])))
+        cl.append(('slots-stay-in-their-lattice', B.const(len(owners) == 1)))
+        cl.append(('lattice-labelled-monotone-iff-it-has-a-monotone-input',
+                   B.const((1 in monos) == any(owner[id(i)][1] == 1 for i in lat if id(i) in owner))))
+    cl.append(('every-slot-reported-once', B.const(sorted(seen) == sorted(owner))))
+    cl.append(('number-of-lattices', B.const(sum(len(l) for _, l in res) == L)))
+    cl.append(('groups-have-different-monotonicities', B.const(len(set(keys)) == len(keys))))
+    cl.append(('groups-are-sorted', B.const(keys == sorted(keys))))
+    return cl
+
+
 def _ensemble_config(cfg, lattices):
   cf = load.mod('configs')
   fc = [cf.FeatureConfig(name='f%d' % i) for i in range(cfg['features'])]
@@ -155,6 +705,9 @@ class RandomEnsembleCase(Case):
   xcheck = False
 
   def body(self, cfg, c):
+    return [('bounded:' + n, b) for n, b in self._body(cfg, c)]
+
+  def _body(self, cfg, c):
     pl = load.mod('premade_lib')
     mode = cfg.get('mode', 'real')
     saved = pl.np
@@ -186,6 +739,9 @@ class PairsCoverCase(Case):
   xcheck = False
 
   def body(self, cfg, c):
+    return [('bounded:' + n, b) for n, b in self._body(cfg, c)]
+
+  def _body(self, cfg, c):
     pl = load.mod('premade_lib')
     mode = cfg.get('mode', 'real')
     saved = pl.np
@@ -236,6 +792,9 @@ class CrystalsCase(Case):
             'native': {k: v for k, v in nat.items() if k != 'trace'}, 'failing': failing}
 
   def body(self, cfg, c):
+    return [('bounded:' + n, b) for n, b in self._body(cfg, c)]
+
+  def _body(self, cfg, c):
     pl = load.mod('premade_lib')
     nf = cfg['features']
     tors = [[0.0] * nf for _ in range(nf)]
@@ -262,7 +821,8 @@ class CrystalsCase(Case):
     return cl
 
 
-CASES = {'rtl': RtlCase(), 'random_ensemble': RandomEnsembleCase(), 'pairs_cover': PairsCoverCase(),
+CASES = {'rtl_prefix': RtlPrefixCase(), 'rtl_swap_body': RtlSwapBodyCase(), 'rtl_suffix': RtlSuffixCase(),
+         'rtl': RtlCase(), 'random_ensemble': RandomEnsembleCase(), 'pairs_cover': PairsCoverCase(),
          'crystals': CrystalsCase()}
 
 
@@ -283,6 +843,21 @@ def configs(tier, rng):
         jobs.append(('rtl', dict(base, grouped=grouped, mode='all')))
       for s in range(8 if tier == 'quick' else 200):
         jobs.append(('rtl', dict(base, grouped=grouped, mode='sample', sample=s)))
+  # deductive part (every seed at once): prefix under the shuffle contract, swap-loop invariant, suffix
+  big = [([5], [7], 6, 4), ([3, 2], [4, 1, 2], 8, 3), ([1], [1], 7, 2), ([], [9], 3, 3), ([6], [], 4, 5), ([2, 2, 2], [3], 5, 2)]
+  for (inc, unc, nl, rk) in rtl + big:
+    if nl * rk < sum(inc) + sum(unc):
+      continue
+    for grouped in (False, True):
+      for avoid in (True, False):
+        jobs.append(('rtl_prefix', dict(inc=inc, unc=unc, num_lattices=nl, rank=rk, grouped=grouped, avoid=avoid)))
+  for rk in ((2, 3) if tier == 'quick' else (2, 3, 4)):
+    for lists in (2, 3):
+      for it in range(lists * (lists - 1) // 2 * rk * rk + 1):
+        jobs.append(('rtl_swap_body', dict(rank=rk, lists=lists, iteration=it)))
+  for (nl, rk) in ((1, 2), (2, 2), (3, 2), (1, 3), (2, 3)) + (() if tier == 'quick' else ((3, 3), (1, 4), (2, 4))):
+    for pats in itertools.product(itertools.product((0, 1), repeat=rk), repeat=nl):
+      jobs.append(('rtl_suffix', dict(rank=rk, patterns=[list(p) for p in pats])))
   ens = [(2, 1, 2), (3, 2, 2), (4, 2, 2), (4, 3, 2), (5, 3, 2), (5, 2, 3), (6, 3, 3), (3, 3, 3), (4, 4, 1)]
   for (nf, nl, rk) in ens:
     if nl * rk < nf or rk > nf:
@@ -332,23 +907,39 @@ def configs(tier, rng):
 
 
 EVIDENCE = {
-    'level': 'exploration',
+    'level': 'other',
     'explanation': (
-        'BOUNDED stand-in (not a proof): the structure builders RTL._get_rtl_structure, set_random_lattice_ensemble, '
-        '_set_all_pairs_cover_lattices and _get_final_crystal_lattices are pure Python on concrete lists whose only '
-        'non-determinism is numpy randomness. The module-level numpy is rebound to a proxy whose random functions are '
-        'driven by a path oracle: every outcome of every random call is enumerated for the smallest sizes, larger sizes use '
-        'a seeded sampler of outcomes plus real numpy seeds; Crystals scores come from a small grid incl. ties, all-equal and '
-        'all-zero prefits. Postconditions of the property are evaluated on each returned structure; determinism in the seed '
-        'is checked by building twice with the real generator. No contract within reach states these properties for all '
-        'list lengths; the enumeration is exhaustive only inside the stated sizes.'),
-    'rule': 'one obligation = (builder, configuration, random outcome / seed / score vector, postcondition instance)',
-    'bounds': 'RTL <= 6 inputs, <= 5 lattices, rank <= 3; ensembles <= 6 features, <= 4 lattices; all oracle outcomes only for '
-              '<= 3-4 inputs; Crystals scores in {0, 0.5, 1, 3}',
+        'Two parts. (1) DEDUCTIVE, RTL._get_rtl_structure, every seed at once (cases rtl_prefix / rtl_swap_body / rtl_suffix): the '
+        'function is cut mechanically, on every run, from the AST of the working tree at its single top-level while statement '
+        '(nothing rewritten except continue -> return inside the extracted innermost body). The prefix runs on the real input '
+        'description with RandomState.shuffle under its CONTRACT (unknown permutation: the list is refilled with fresh opaque '
+        'tokens, ghost state keeps the old contents), so its postconditions - one flattened input per column with the index / '
+        'monotonicity / group RTL.call uses, every lattice exactly lattice_rank slots, every feature used, usage counts differing '
+        'by at most one - hold for every permutation. The swap loop is covered by a loop invariant proved on the innermost body '
+        'from an arbitrary state (slots with symbolic group / monotonicity / index, every comparison forks the path, infeasible '
+        'paths pruned by z3): lengths kept, slots only exchanged, other lattices untouched; an AST frame check shows the loop '
+        'skeleton writes nothing else. The suffix (sort + grouping) is run on every monotonicity pattern with opaque indices: '
+        'slots stay in their lattice, each is reported once, the reported monotonicity is the one of the input wired to the slot, '
+        'a lattice is labelled monotone iff it has a monotone input. The property clauses follow by composition. Determinism: '
+        'the only random source named in the function is RandomState, constructed once from self.random_seed. '
+        '(2) BOUNDED stand-in (cases rtl / random_ensemble / pairs_cover / crystals, labelled bounded): set_random_lattice_ensemble, '
+        '_set_all_pairs_cover_lattices and _get_final_crystal_lattices on concrete lists with numpy randomness replaced by a path '
+        'oracle (every outcome for the smallest sizes) or a sampler, Crystals scores from a small grid; the whole RTL function '
+        'on real seeds as a cross-check of the cut.'),
+    'rule': 'one obligation = (segment or builder, configuration, path / random outcome / seed / score vector, postcondition instance)',
+    'bounds': 'deductive part: per (input groups, num_lattices, lattice_rank) configuration, all seeds; swap body rank <= 3 (4 thorough) '
+              'with 2 or 3 lattices (the body touches two); suffix <= 3 lattices of rank <= 3 (4 thorough). Bounded part: RTL <= 6 inputs, '
+              '<= 5 lattices, rank <= 3; ensembles <= 6 features, <= 4 lattices; all oracle outcomes only for <= 3-4 inputs; Crystals '
+              'scores in {0, 0.5, 1, 3, 7}',
     'exhaustive_tiers': {'quick': False, 'thorough': False},
-    'trusted_base': ['a seeded numpy generator is deterministic', 'the random proxy covers every numpy random call these builders make '
-                     '(seed, RandomState.shuffle, shuffle, choice)'],
-    'assumptions': ['evaluation of concrete structures, not symbolic proof'],
+    'trusted_base': ['numpy: RandomState(seed) is deterministic and shuffle applies a permutation in place',
+                     'list.sort is a permutation ordered by the key; itertools.combinations / product as documented',
+                     'the random proxy covers every numpy random call the bounded builders make (seed, RandomState.shuffle, shuffle, choice)'],
+    'assumptions': ['counting lemma applied outside the solver: usage counts are invariant under a bijective relabelling of distinct '
+                    'inputs, and an evenly used later shuffle reproduces the counts of the list it shuffled',
+                    'composition of prefix-post, loop invariant and suffix-post is argued in DESIGN.md, not machine-checked; the '
+                    'suffix is checked for <= 3 lattices',
+                    'random ensemble, pairs cover and Crystals: evaluation of concrete structures, not symbolic proof (bounded)'],
 }
 
 if __name__ == '__main__':
